@@ -1,3 +1,5 @@
+import ClipVerif.Model.BuildPaths
+import ClipVerif.Proofs.BuildPaths
 import ClipVerif.Model.Split
 import ClipVerif.Proofs.Split
 import ClipVerif.Proofs.C17
@@ -110,5 +112,24 @@ theorem fix_leaves_clean_rings_alone (ring : List Point64) (hne : ring ≠ [])
    reduce); it is shown by execution: `fixSelfIntersects [(0,0),(10,0),(12,12),(9,-3),(0,10)]` evaluates to
    `some (some [(0,0),(6,0),(0,10)], [[(9,0),(10,0),(12,12)]])`, and of 100,000 `models-corr split`
    probes 52 % shorten the ring, 37 % create records, 12 % drop the ring, 4 % take the micro shortcut. -/
+
+/-! ### The whole post-sweep pipeline (`Model.BuildPaths`: `cleanCollinear` + the `buildPaths` loop, tied by
+`models-corr buildpaths`) -/
+
+/-- provenance of the closed solution: every vertex of every emitted path is a point of one of the output
+    records the sweep left, or an intersection point of four such points (iterated) — whatever the float
+    decisions of the repair are, and including the records created while the loop runs -/
+theorem buildPaths_provenance (P : Point64 → Prop) (hP : ClosedUnderIp P) (preserve reverse : Bool)
+    (recs : List (List Point64)) (h : ∀ r ∈ recs, ∀ q ∈ r, P q) (out : List (List Point64))
+    (ho : buildPaths preserve reverse recs = some out) :
+    ∀ p ∈ out, ∀ q ∈ p, P q := by
+  exact Proofs.BuildPaths.buildPaths_provenance P hP preserve reverse recs h out ho
+
+/-- `cleanCollinear` as a whole: same statement for one record -/
+theorem cleanCollinear_provenance (P : Point64 → Prop) (hP : ClosedUnderIp P) (preserve : Bool)
+    (ring : List Point64) (h : ∀ q ∈ ring, P q) (main : Option (List Point64)) (news : List (List Point64))
+    (hr : cleanCollinear preserve ring = some (main, news)) :
+    (∀ r, main = some r → ∀ q ∈ r, P q) ∧ (∀ t ∈ news, ∀ q ∈ t, P q) := by
+  exact Proofs.BuildPaths.cleanCollinear_provenance P hP preserve ring h main news hr
 
 end C02
